@@ -530,6 +530,33 @@ func (x *Exec) ghostType(owner *types.Named, g *GhostField) (elem types.Type, is
 	case spec == "ref":
 		// an untyped object reference (only compared for equality)
 		elem = types.Typ[types.UnsafePointer]
+	case strings.HasPrefix(spec, "ptr "):
+		// pointer to another generic struct of the same package, instantiated with the owner's type arguments
+		name := strings.TrimSpace(spec[4:])
+		obj := owner.Obj().Pkg().Scope().Lookup(name)
+		tn, ok := obj.(*types.TypeName)
+		if !ok {
+			panic(fmt.Errorf("ghost field %s.%s: no type %s", g.Owner, g.Name, name))
+		}
+		target := tn.Type()
+		if gn, isN := target.(*types.Named); isN && gn.TypeParams().Len() > 0 {
+			var args []types.Type
+			for i := 0; i < owner.TypeArgs().Len(); i++ {
+				args = append(args, owner.TypeArgs().At(i))
+			}
+			if len(args) == 0 {
+				// the owner is the generic type itself: use its own type parameters
+				for i := 0; i < owner.TypeParams().Len(); i++ {
+					args = append(args, owner.TypeParams().At(i))
+				}
+			}
+			inst, err := types.Instantiate(nil, gn, args, false)
+			if err != nil {
+				panic(fmt.Errorf("ghost field %s.%s: %v", g.Owner, g.Name, err))
+			}
+			target = inst
+		}
+		elem = types.NewPointer(target)
 	case strings.HasPrefix(spec, "like "):
 		fn := strings.TrimSpace(spec[5:])
 		i := fieldIndex(owner, fn)
